@@ -192,14 +192,27 @@ def real_module(kind, cfg):
 def make_module(pw, kind, cfg):
     w = lib_wave(cfg['wave'], kind.startswith('inv'))
     if kind == 'fwd1':
-        return pw.DWT1DForward(J=cfg['J'], wave=w, mode=cfg['mode'])
-    if kind == 'inv1':
-        return pw.DWT1DInverse(wave=w, mode=cfg['mode'])
-    if kind == 'fwd2':
-        return pw.DWTForward(J=cfg['J'], wave=w, mode=cfg['mode'])
-    if kind == 'inv2':
-        return pw.DWTInverse(wave=w, mode=cfg['mode'])
-    raise KeyError(kind)
+        m = pw.DWT1DForward(J=cfg['J'], wave=w, mode=cfg['mode'])
+    elif kind == 'inv1':
+        m = pw.DWT1DInverse(wave=w, mode=cfg['mode'])
+    elif kind == 'fwd2':
+        m = pw.DWTForward(J=cfg['J'], wave=w, mode=cfg['mode'])
+    elif kind == 'inv2':
+        m = pw.DWTInverse(wave=w, mode=cfg['mode'])
+    else:
+        raise KeyError(kind)
+    scrub(pw, w)
+    return m
+
+
+def scrub(pw, w):
+    """the caller re-uses its filter arrays after building the transform: a module must have copied what it needs"""
+    if isinstance(w, tuple):
+        for a in w:
+            if isinstance(a, np.ndarray):
+                a[...] = 0.0
+        if pw is symtorch.sym():
+            T.sync_np_aliases()
 
 
 def in_shape(cfg):
